@@ -158,7 +158,7 @@ _QUICK_CFG = [
 ]
 _QUICK_SPECS = ["basic_int", "basic_str", "textattr", "textstr", "reqtext", "lists_int", "lists_str", "frozen", "nillable", "nilparent", "parenta",
                 "unqualified", "sequential", "wrapped", "unions_int", "unions_str", "enums", "qnames", "compound", "compound_single", "holder",
-                "derived_root", "wild_text", "wild_attrs", "anytyped", "defaults", "temporal", "formats", "tokenlists", "parentb", "nsattr", "derivedb", "dup", "unionmodels", "nsattrparent", "family"]
+                "derived_root", "wild_text", "wild_attrs", "anytyped", "defaults", "temporal", "formats", "tokenlists", "parentb", "nsattr", "derivedb", "dup", "unionmodels", "nsattrparent", "family", "renamed"]
 
 
 # ---------------------------------------------------------------------------------------------------------------------
